@@ -622,6 +622,25 @@ def rule_two_sided(ctx: Ctx, clause="C09.17") -> RuleResult:
     return rr
 
 
+def rule_line_pos_inside_segment(ctx: Ctx) -> RuleResult:
+    """calc_line_pos() answers with a text offset *on the requested line*: a segment (columns, offs, end) covers the
+    half-open offsets offs..end, and `end` is where the next line starts (a line that ends at a wrap point has no
+    trailing hint segment).  Every offset it returns is the start of a segment (`.offs`), an int remembered from
+    one, or the offset calc_text_pos() found inside offs..end - never a segment's `.end`: calc_coords() maps that
+    offset to column 0 of the following row, the cursor lands on another row than the one move_cursor_to_coords()
+    was asked for and reported success on (seed C09-r8a)."""
+    p = ctx.p
+    rr = RuleResult("BOUND", "C09.20", "calc_line_pos() never returns a segment's half-open end offset", floor=4)
+    fi = p.func("urwid.text_layout.calc_line_pos")
+    for r in [n for n in fi.own_nodes() if isinstance(n, ast.Return) and n.value is not None]:
+        v = r.value
+        bad = [x for x in ast.walk(v) if isinstance(x, ast.Attribute) and x.attr == "end" and not any(isinstance(c, ast.Call) and callee_name(c) == "calc_text_pos" and any(y is x for y in ast.walk(c)) for c in ast.walk(v))]
+        rr.inst(norm(r, 60), True, {"return": norm(r, 70), "returns_segment_end": bool(bad)})
+        if bad:
+            rr.add(finding("BOUND", fi, r, f"`{norm(r, 60)}` returns `{ast.unparse(bad[0])}`, the half-open end of a segment: for a line that ends at a wrap point this is the first offset of the next line - the cursor is placed at column 0 of the following row although the move was reported as done on the requested row", construct="calc_line_pos returns a segment end"))
+    return rr
+
+
 def run(ctx: Ctx):
     p = ctx.p
     return [
@@ -644,6 +663,7 @@ def run(ctx: Ctx):
         rule_hidden_columns(ctx),
         rule_scrollbar_side(ctx),
         rule_hit_test_every_branch(ctx),
+        rule_line_pos_inside_segment(ctx),
     ]
 
 
